@@ -9,6 +9,7 @@ import thr_checks
 import sub_checks
 import gen_checks
 import conv_checks
+import err_checks
 
 CORE_A = ["Model/Base.v", "Model/Dispatch.v", "Model/Routing.v", "Model/DispLane.v", "Gen/DispatchSrc.v", "Gen/ConvSrc.v",
           "Proofs/DispatchProofs.v", "Proofs/RoutingProofs.v", "Proofs/SrcObligations.v"]
@@ -115,6 +116,13 @@ REGISTRY = {
             "run": _conv("C03", 40), "rule": RULE_CONV, "t1_sections": ["gen"]},
     "C06": {"props_file": "Props/C06.v", "files": CORE_CONV + ["Proofs/UnstructProofs.v", "Proofs/ClassRoundtrip.v", "Proofs/ConvSound.v", "Proofs/ConvRoundtrip.v", "Proofs/ConvCfg.v", "Props/C06.v"],
             "run": _conv("C06", 40), "rule": RULE_CONV, "t1_sections": ["gen"]},
+    "C05": {"props_file": "Props/C05.v", "files": CORE_CONV + ["Model/ConvErr.v", "Proofs/ConvErrProofs.v", "Proofs/ConvCfg.v", "Props/C05.v"],
+            "run": (lambda v, b, tier: err_checks.check_c05(v, b.t1_summary, 60 * SIZES[tier])), "t1_sections": ["gen"],
+            "rule": "worlds as in the CONV lane plus TypedDicts (25% of the classes); per world 3 target types (a class, or a class inside list / mapping / tuple / Optional), "
+                    "per type 3 valid payloads (the unstructured form of a generated value); into each payload k in {0,1,1,2,2,3,4,6} independent faults are injected at random "
+                    "positions of any depth: a leaf its type cannot accept (int/float/bytes/enum/literal positions), a required key removed, an extra key (when forbid_extra_keys is on); "
+                    "faults never sit inside a component another fault replaces or removes; k = 0 is the control (must be accepted); non-trivial = every faulted payload; "
+                    "distinct = sha1 of (world, type, payload, forbid)"},
     "C02": {"props_file": "Props/C02.v", "files": CORE_CONV + ["Proofs/ConvSound.v", "Proofs/ConvCfg.v", "Props/C02.v"], "run": _conv("C02", 40), "rule": RULE_CONV, "t1_sections": ["gen"]},
     "C04": {"props_file": "Props/C04.v", "files": CORE_TPL + ["Props/C04.v"], "run": _c04, "rule": RULE_TPL, "t1_sections": ["gen"]},
     "C09": {"props_file": "Props/C09.v", "files": CORE_TPL + ["Proofs/UnstructProofs.v", "Props/C09.v"], "run": _c09, "rule": RULE_TPL, "t1_sections": ["gen"]},
